@@ -710,12 +710,22 @@ func (s *state) evaldef(n ast.Node) data.Value {
 }
 
 var (
-	htmlQuot = []byte("&#34;") // shorter than "&quot;"
+	htmlQuot = []byte("&quot;") // as the JavaScript runtime (soy.$$escapeHtml) writes it
 	htmlApos = []byte("&#39;") // shorter than "&apos;" and apos was not in HTML until HTML5
 	htmlAmp  = []byte("&amp;")
 	htmlLt   = []byte("&lt;")
 	htmlGt   = []byte("&gt;")
 )
+
+// htmlEscape returns the escaped form of str.  The escaping directives use it,
+// so that they and autoescaping write the same references.
+func htmlEscape(str string) string {
+	var buf bytes.Buffer
+	if err := htmlEscapeString(&buf, str); err != nil {
+		panic(err) // a bytes.Buffer does not fail
+	}
+	return buf.String()
+}
 
 // htmlEscapeString is a modified veresion of the stdlib HTMLEscape routine
 // escapes a string without making copies.
